@@ -20,6 +20,7 @@ type UnkCase struct {
 	Digest bool          `json:"dg,omitempty"`
 	Level  int           `json:"lvl"`
 	Nest   int           `json:"nest,omitempty"` // which nested container (modulo their number)
+	Deep   []int         `json:"deep,omitempty"` // levels >= 2: which nested container of the container chosen one level up
 	Pos    int           `json:"pos"`            // which boundary (modulo their number); -1: every boundary in turn
 	Class  string        `json:"cls"`            // nc1 nc3 nc5 (even > 31) | clow (even <= 30) codd1 codd3 (odd)
 	Seed   uint64        `json:"seed"`           // selects the concrete type number inside the class
@@ -31,16 +32,31 @@ var unkClasses = []string{"nc1", "nc3", "nc5", "clow", "codd1", "codd3"}
 
 func genUnk(st *modelreg.State) func(*rapid.T) UnkCase {
 	keys := st.Keys()
+	byDepth := map[int][]string{}
+	for _, k := range keys {
+		for d := 0; d <= nestDepth(st, st.ByKey(k), 4); d++ {
+			byDepth[d] = append(byDepth[d], k)
+		}
+	}
 	return func(t *rapid.T) UnkCase {
-		k := keys[modelreg.Uniform(t, len(keys), "model")]
+		c := UnkCase{}
+		c.Level = []int{0, 1, 0, 1, 2, 3}[modelreg.Uniform(t, 6, "level")]
+		// a model whose definition nests that deep, if there is one (constructed, not filtered)
+		pool := byDepth[c.Level]
+		if len(pool) == 0 {
+			pool = keys
+		}
+		k := pool[modelreg.Uniform(t, len(pool), "model")]
 		m := st.ByKey(k)
-		c := UnkCase{Model: k}
-		c.Level = modelreg.Uniform(t, 2, "level")
-		c.V = modelreg.Gen(t, st, m, modelreg.GenOpts{Thorough: evid.Thorough(), Dense: c.Level == 1})
+		c.Model = k
+		c.V = modelreg.Gen(t, st, m, modelreg.GenOpts{Thorough: evid.Thorough(), Dense: c.Level >= 1})
 		if hasInterestName(st, m) {
 			c.Digest = rapid.Bool().Draw(t, "needDigest")
 		}
 		c.Nest = modelreg.Uniform(t, 8, "nest")
+		for i := 2; i <= c.Level; i++ {
+			c.Deep = append(c.Deep, modelreg.Uniform(t, 8, "deep"))
+		}
 		c.Pos = -1 // every boundary of the chosen level
 		c.Class = unkClasses[modelreg.Uniform(t, len(unkClasses), "class")]
 		c.Seed = uint64(rapid.IntRange(0, 4095).Draw(t, "typeseed"))
@@ -48,6 +64,33 @@ func genUnk(st *modelreg.State) func(*rapid.T) UnkCase {
 		c.Cuts = genCuts(t)
 		return c
 	}
+}
+
+// nestDepth is the number of levels of nested model values the definition of m allows (0: none).
+func nestDepth(st *modelreg.State, m *modelreg.Model, limit int) int {
+	if limit == 0 {
+		return 0
+	}
+	best := 0
+	t := m.Type()
+	for _, f := range m.Info.Fields {
+		sf, ok := t.FieldByName(f.Name)
+		if !ok {
+			continue
+		}
+		ft := sf.Type
+		if ft.Kind() == reflect.Slice || ft.Kind() == reflect.Map {
+			ft = ft.Elem()
+		}
+		if ft.Kind() == reflect.Pointer && ft.Elem().Kind() == reflect.Struct {
+			if sub := st.ByType(ft); sub != nil {
+				if d := 1 + nestDepth(st, sub, limit-1); d > best {
+					best = d
+				}
+			}
+		}
+	}
+	return best
 }
 
 func isCriticalType(t uint64) bool { return t <= 31 || t&1 == 1 }
@@ -159,28 +202,35 @@ func execUnk(st *modelreg.State) func(UnkCase) evid.Result {
 			return fail("%v", err)
 		}
 
-		// where to insert
-		level := c.Level
+		// where to insert: descend through up to c.Level nested model values (Packet -> Data ->
+		// SignatureInfo -> KeyLocator, RibStatus -> RibEntry -> Route, ...); the descent stops where the
+		// value holds no further nested model
+		level := 0
 		lo, hi := 0, len(base) // range whose element boundaries are candidates
 		levelModel := m
 		es := top
-		var cont *container
-		if level == 1 {
-			cs := nestedContainers(st, m, top)
+		var chain []modelreg.Elem // the containers descended into, outermost first
+		for level < c.Level {
+			cs := nestedContainers(st, levelModel, es)
 			if len(cs) == 0 {
-				level = 0
-				res.Classes = append(res.Classes, "no-nested-model-in-value(level0-instead)")
-			} else {
-				cont = &cs[c.Nest%len(cs)]
-				ce := top[cont.idx]
-				lo, hi = ce.ValOff(), ce.End()
-				levelModel = cont.sub
-				var ok2 bool
-				es, ok2, _ = modelreg.Elements(base, lo, hi)
-				if !ok2 {
-					return fail("nested value of type %d is not a well-formed TLV sequence", ce.Typ)
-				}
+				res.Classes = append(res.Classes, fmt.Sprintf("no-nested-model-in-value(level%d-instead)", level))
+				break
 			}
+			pick := c.Nest
+			if level >= 1 {
+				pick = c.Deep[level-1]
+			}
+			cont := cs[pick%len(cs)]
+			ce := es[cont.idx]
+			chain = append(chain, ce)
+			lo, hi = ce.ValOff(), ce.End()
+			levelModel = cont.sub
+			var ok2 bool
+			es, ok2, _ = modelreg.Elements(base, lo, hi)
+			if !ok2 {
+				return fail("nested value of type %d is not a well-formed TLV sequence", ce.Typ)
+			}
+			level++
 		}
 		bounds := []int{lo}
 		for _, x := range es {
@@ -224,13 +274,15 @@ func execUnk(st *modelreg.State) func(UnkCase) evid.Result {
 				}
 			}
 
-			var mod []byte
-			if level == 0 {
-				mod = append(append(append([]byte{}, base[:at]...), unk...), base[at:]...)
-			} else {
-				ce := top[cont.idx]
-				inner := append(append(append([]byte{}, base[lo:at]...), unk...), base[at:hi]...)
-				mod = append(append(append([]byte{}, base[:ce.Off]...), modelreg.TLV(ce.Typ, inner)...), base[ce.End():]...)
+			// the innermost value with the element inserted, re-wrapped by every container on the way out
+			mod := append(append(append([]byte{}, base[lo:at]...), unk...), base[at:hi]...)
+			for i := len(chain) - 1; i >= 0; i-- {
+				ce := chain[i]
+				plo, phi := 0, len(base)
+				if i > 0 {
+					plo, phi = chain[i-1].ValOff(), chain[i-1].End()
+				}
+				mod = append(append(append([]byte{}, base[plo:ce.Off]...), modelreg.TLV(ce.Typ, mod)...), base[ce.End():phi]...)
 			}
 
 			where := fmt.Sprintf("unknown element type %d (%s, %d value bytes) inserted at level %d boundary %d/%d (offset %d)", typ, cl, c.VLen, level, bi, len(bounds)-1, at)
@@ -302,7 +354,7 @@ func execUnk(st *modelreg.State) func(UnkCase) evid.Result {
 	}
 }
 
-const ruleUnk = "every discovered model x random value x one unknown TLV (type not used by the model at that level: non-critical even >31 in 1-, 3- and 5-byte type form, or critical <=31 / odd) inserted at a random element boundary of the top level or of one nested model value; BufferReader and segmented WireReader, ignoreCritical false and true. Non-critical (or ignoreCritical): decode succeeds, equals the original value, re-encodes to the original bytes; critical and !ignoreCritical: ErrUnrecognizedField for that type. Non-trivial: >= 2 elements at the insertion level"
+const ruleUnk = "every discovered model x random value x one unknown TLV (type not used by the model at that level: non-critical even >31 in 1-, 3- and 5-byte type form, or critical <=31 / odd) inserted at every element boundary of the top level or of a nested model value one, two or three levels down; BufferReader and segmented WireReader, ignoreCritical false and true. Non-critical (or ignoreCritical): decode succeeds, equals the original value, re-encodes to the original bytes; critical and !ignoreCritical: ErrUnrecognizedField for that type. Non-trivial: >= 2 elements at the insertion level"
 
 func TestC13Unknown(t *testing.T) {
 	st := state()
